@@ -28,8 +28,14 @@ var c12plan = msgsPlan{
 	Cats: map[string]bool{"proposal": true, "proposal-c12": true, "update": true, "vfund": true, "vsettle": true,
 		"sync": true, "response": true, "control": true, "hubfund": true, "hubsettle": true},
 	// sync messages while the victim's machine mutex is held for longer than the 10 s sync reply timeout
-	HeldPts:     []string{"open-v0", "open-v1", "sub-v1"},
-	HeldCats:    map[string]bool{"sync": true},
+	HeldPts:  []string{"open-v0", "open-v1", "sub-v1"},
+	HeldCats: map[string]bool{"sync": true},
+	// the stranger's messages when replies to it cannot be delivered and the bus blocks instead of failing
+	UnreachPts: []string{"open-v0", "open-v1", "sub-v1"},
+	UnreachNames: []string{"sync/current", "sync/higher-version", "sync/odd-phase-no-sigs", "sync/unknown-id", "sync/empty-tx",
+		"ledger/base", "sub/base", "virtual/base", "update/relayed-by-stranger", "resp/update-rej-next", "ctrl/ping"},
+	// crafted responses to the victim's own proposals and updates
+	Own:         true,
 	PairPoints:  []string{"open-v1", "sub-v0"},
 	InflightPts: []string{"open-v1"},
 	InflightCats: map[string]bool{"proposal": true, "proposal-c12": true, "update": true, "vfund": true, "vsettle": true,
@@ -56,6 +62,13 @@ func c12check(ssc schedrun.Scenario, s *vsched.Sched, o any) []schedrun.Verdict 
 	if done {
 		return out
 	}
+	if obs.OwnHonest {
+		if obs.OwnRes != "ok" {
+			out = append(out, schedrun.Verdict{Property: "C12", Clause: "control-failed", Site: obs.Pt + "/" + obs.Msg,
+				Detail: fmt.Sprintf("positive control: the victim's own %s request answered by the honest real M ended with %s %s", obs.OwnKind, obs.OwnRes, obs.OwnDetail)})
+		}
+		return append(out, probeVerdicts("C12", obs)...)
+	}
 	if obs.injected() == 0 {
 		return out // nothing could be expressed: whatever happened is not the doing of a crafted message
 	}
@@ -69,7 +82,8 @@ var c12harness = schedrun.Harness{Name: "clients", Scenarios: msgsScenarios(c12m
 
 var c08rejMode = msgsMode{Prop: "C08", Reject: true, Probe: true}
 
-var c08rejPlan = msgsPlan{Points: msgsBasePoints, Cats: map[string]bool{"proposal": true}}
+var c08rejPlan = msgsPlan{Points: msgsBasePoints, Cats: map[string]bool{"proposal": true},
+	NoncePts: map[string]string{"ledger": "nochan", "sub": "open-v1"}}
 
 func c08rejCheck(ssc schedrun.Scenario, s *vsched.Sched, o any) []schedrun.Verdict {
 	obs := o.(*msgsObs)
@@ -78,6 +92,16 @@ func c08rejCheck(ssc schedrun.Scenario, s *vsched.Sched, o any) []schedrun.Verdi
 		return out
 	}
 	site := obs.Pt + "/" + obs.Msg
+	if obs.Variant == "nonce" {
+		if len(obs.Nonce) > 0 {
+			out = append(out, schedrun.Verdict{Property: "C08", Clause: "nonce-not-from-both-shares", Site: site,
+				Detail: "honest openings with the victim as responder (same proposer share, two different responder shares): " + strings.Join(obs.Nonce, "; ")})
+		}
+		if len(obs.Nonce) == 0 && len(obs.Errs) > 0 {
+			out = append(out, schedrun.Verdict{Property: "C08", Clause: "harness-error", Site: site, Detail: "handler error in an honest opening: " + obs.Errs[0]})
+		}
+		return out
+	}
 	calls, chans := obs.PropsAfter-obs.PropsBefore, obs.ChansAfter-obs.ChansBefore
 	for _, it := range obs.Items {
 		if it.NA || it.NotExpr != "" {
